@@ -61,6 +61,10 @@ type CPKnobs struct {
 	// the source lives on: at up to Live of the chunker's step hooks a further version is
 	// committed and finalized or the earliest version below the checkpointed one is pruned.
 	Hist *CPHist `json:"hist,omitempty"`
+	// Fallback: the restore is given up after some chunks (abort) and the node reaches the same
+	// version the ordinary way instead: the same contents are committed as a regular batch, which
+	// gives the same root, and finalized. The root must then be completely readable.
+	Fallback bool `json:"fallback,omitempty"`
 }
 
 // CPHist describes the history of the checkpoint source (see CPKnobs.Hist).
@@ -190,6 +194,9 @@ func (CheckpointEngine) Generate(r *core.Rand, tier core.Tier) *core.Scenario {
 			h.Live = hr.Range(1, 8)
 		}
 		k.Hist = h
+	}
+	if k.Hist == nil && nk > 0 && core.NewRand(k.SchedSeed^0xfa11bac).Chance(1, 5) {
+		k.Fallback = true
 	}
 	sc := &core.Scenario{Engine: "checkpoint", Knobs: core.MustJSON(k)}
 	nops := r.Range(0, 12)
@@ -945,6 +952,69 @@ func (CheckpointEngine) Execute(sc *core.Scenario, st *core.Stats) (*core.Violat
 		if v != nil {
 			return v, true
 		}
+	}
+	if k.Fallback && !finished && n >= 2 && !root.Hash.IsEmpty() {
+		pv, stack = core.Guard(func() {
+			pr := core.NewRand(k.SchedSeed ^ 0xfa11)
+			// Some chunks have been restored (at least one, never all of them) ...
+			for _, idx := range pr.Perm(n) {
+				if len(done) >= 1 && (len(done) >= n-1 || pr.Chance(1, 2)) {
+					break
+				}
+				if done[idx] {
+					continue
+				}
+				if _, err := restoreOne(idx, chunks[idx], meta); err != nil {
+					v = cpViol("honest-chunk-rejected", fmt.Sprintf("fallback: honest chunk %d of %d rejected: %v", idx, n, err))
+					return
+				}
+				done[idx] = true
+			}
+			// ... the restore is given up ...
+			if v = abort(); v != nil {
+				return
+			}
+			if v = nothingVisible("after the abort"); v != nil {
+				return
+			}
+			// ... and the version arrives the ordinary way.
+			t := mkvs.New(nil, dst, rootType)
+			defer t.Close()
+			for _, kk := range contents.SortedKeys() {
+				if err := t.Insert(ctx, []byte(kk), contents[kk]); err != nil {
+					v = cpViol("fallback-commit-error", fmt.Sprintf("insert into a fresh tree on the database of the aborted restore failed: %v", err))
+					return
+				}
+			}
+			_, h, err := t.Commit(ctx, Namespace, k.Version)
+			if err != nil {
+				v = cpViol("fallback-commit-error", fmt.Sprintf("after a restore of version %d was aborted with %d of %d chunks restored, the regular commit of the same contents at that version failed: %v", k.Version, len(done), n, err))
+				return
+			}
+			if !h.Equal(&root.Hash) {
+				core.Harnessf("checkpoint: the regular commit of the checkpointed contents gives root %s, the checkpoint has %s", h, root.Hash)
+			}
+			if err := dst.Finalize([]node.Root{root}); err != nil {
+				v = cpViol("fallback-commit-error", fmt.Sprintf("Finalize of the regularly committed root after an aborted restore failed: %v", err))
+				return
+			}
+			st.Inc("probe.regular_commit_of_the_same_root_after_aborted_restore")
+			if !dst.HasRoot(root) {
+				v = cpViol("fallback-root-unreadable", "after an aborted restore, a regular commit of the same root and Finalize, HasRoot(root) is false")
+				return
+			}
+			t2 := mkvs.NewWithRoot(nil, dst, root)
+			err = CompareDump(ctx, t2, contents)
+			t2.Close()
+			if err != nil {
+				v = cpViol("fallback-root-unreadable", fmt.Sprintf("%s: a restore of version %d was aborted with %d of %d chunks restored, then the same contents were committed as a regular batch (same root %s) and finalized: the finalized root does not read back: %v", k.Dst, k.Version, len(done), n, root.Hash, err))
+			}
+		})
+		if pv != nil {
+			verifhook.SetHandler(nil)
+			return cpViol("panic", fmt.Sprintf("fallback: panic: %v\n%s", pv, stack)), true
+		}
+		return v, true
 	}
 	// Complete the restore honestly, in a seeded order.
 	pv, stack = core.Guard(func() {
